@@ -34,11 +34,12 @@ Record cflags := mkCF {
   reset_on_put : bool;       (* freeBuffer: buf = ( *buf)[:0] before Put; pool.New makes len 0 *)
   drops_oversized : bool;    (* freeBuffer refuses cap > maxBufferSize *)
   gate_first : bool;         (* Enabled(level) is tested before anything else in log/logf/logAttrs *)
-  free_after_write : bool    (* buf := newBuffer(); defer freeBuffer(buf) *)
+  free_after_write : bool;   (* buf := newBuffer(); defer freeBuffer(buf) *)
+  unlock_deferred : bool     (* outMu.Unlock() is DEFERRED: it also runs when the destination's Write panics *)
 }.
-Definition good_flags : cflags := mkCF true true true true true true true.
+Definition good_flags : cflags := mkCF true true true true true true true true.
 Definition discipline (f : cflags) : bool :=
-  single_write f && write_under_lock f && shares_mu f && reset_on_put f && gate_first f && free_after_write f.
+  single_write f && write_under_lock f && shares_mu f && reset_on_put f && gate_first f && free_after_write f && unlock_deferred f.
 
 Definition updf {X} (g : nat -> X) (i : nat) (x : X) : nat -> X := fun j => if Nat.eqb j i then x else g j.
 
@@ -173,8 +174,21 @@ Section Conc.
       to its caller and nobody looks at it again.  To make that a statement, schedules may carry a result for
       every label (only meaningful for LWriteEnd); [rstep] ignores it by definition of the model, and
       Properties/C02.v states the theorem for every assignment of results. *)
-  Inductive wresult := WOk | WShort (n : nat) | WErr (kind : nat).
-  Definition rstep (f : cflags) (s : state) (lr : label * wresult) : option state := step f s (fst lr).
+  Inductive wresult := WOk | WShort (n : nat) | WErr (kind : nat) | WPanic.
+  (** [WPanic]: the Write does not return but unwinds (a panic recovered above the logging call). With the
+      deferred Unlock and freeBuffer the unwinding runs the very same actions as a return, so the model
+      continues as after any other Write.  WITHOUT the defer ([unlock_deferred] = false) the call is simply
+      over: the chunk was handed over, the mutex stays locked for good and the buffer is lost. *)
+  Definition rstep (f : cflags) (s : state) (lr : label * wresult) : option state :=
+    match lr with
+    | (LWriteEnd t, WPanic) =>
+        if unlock_deferred f then step f s (LWriteEnd t)
+        else match step f s (LWriteEnd t) with
+             | Some s' => Some (set_thr s' t (mkThread (tl (todo (thr s' t))) Idle))
+             | None => None
+             end
+    | (l, _) => step f s l
+    end.
   Fixpoint rrun (f : cflags) (s : state) (ls : list (label * wresult)) : option state :=
     match ls with
     | [] => Some s
@@ -266,12 +280,13 @@ Record conc_facts := mkConcFacts {
   lf_gate_first : bool;        (* log, logf, logAttrs start with `if !l.h.Enabled(level) { return nil }` *)
   of_level_stored : bool;      (* NewOptions stores its level argument unchanged *)
   of_enabled_is_ge : bool;     (* Options.Enabled is `l >= opts.level` *)
-  hf_mu_out_immutable : bool   (* no method of the handler type assigns outMu or out *)
+  hf_mu_out_immutable : bool;  (* no method of the handler type assigns outMu or out *)
+  hf_unlock_deferred : bool    (* the Unlock is a `defer` placed before the Write (not an explicit call after it) *)
 }.
 Definition conc_flags (x : conc_facts) : cflags :=
   mkCF (hf_single_write x) (hf_write_under_lock x) (hf_clone_shares_mu x && hf_mu_out_immutable x)
        (ff_reset_before_put x && ff_pool_new_empty x) (ff_refuses_oversized x) (lf_gate_first x)
-       (hf_buf_from_pool x && hf_free_deferred x).
+       (hf_buf_from_pool x && hf_free_deferred x) (hf_unlock_deferred x).
 (** the last two facts tie the model's gate predicate to [level_enabled threshold] with the threshold the caller configured *)
 Definition conc_discipline (x : conc_facts) : bool :=
   discipline (conc_flags x) && hf_handle_readonly x && of_level_stored x && of_enabled_is_ge x.
